@@ -68,6 +68,9 @@ static int run_case(const struct kase *k, struct res *r, int verbose) {
         if (n2 == n && !memcmp(again, b.out, n + 1)) { polyseed_enable_features(7); n2 = polyseed_encode(s, lang, k->coin, again); r->calls++; }
         polyseed_enable_features(k->mask);
         if (n2 != n || memcmp(again, b.out, n + 1)) FAIL("purity", "second encode of the same seed differs");
+        /* nor may it depend on the allocator: every allocation request fails during this encode */
+        { long keep = E.fail_at; E.fail_at = E.alloc_seq; size_t n3 = polyseed_encode(s, lang, k->coin, again); r->calls++; long asked = E.alloc_seq; E.fail_at = keep; (void)asked;
+          if (n3 != n || memcmp(again, b.out, n + 1)) FAIL("purity-allocator", "encode under a failing allocator produced a different phrase"); }
         polyseed_free(s);
         if (ledger_live()) FAIL("leak", "blocks left allocated");
         r->cls[K_OK]++; r->validated++; r->digest ^= dg;
@@ -232,13 +235,19 @@ static void work_e(long lo, long hi, struct res *r, void *arg) {
         int li = (int)(x % R_NLANG);
         for (int i = 0; i < 32; i++) { E.tape[0][i] = (uint8_t)prng(&ps); E.mask[i] = (uint8_t)prng(&ps); }
         E.clock[0] = R_EPOCH + (prng(&ps) % 1024) * R_STEP + 17;
+        if ((x & 7) == 3) E.clock[0] = R_EPOCH + (1024 + prng(&ps) % 3000) * R_STEP + 99;      /* after the documented range: only the month index wraps */
+        if ((x & 63) == 5) E.clock[0] = (x & 64) ? UINT64_MAX : 1000 + (uint64_t)x;              /* error value / before the epoch */
         unsigned f = (unsigned)(prng(&ps) & 7);
+        unsigned farg = f | ((x & 16) ? 0xFFFFFF00u : 0);                                     /* argument bits above the three feature bits do not count */
         polyseed_enable_features(7);
         polyseed_data *s = NULL;
-        if (polyseed_create(f, &s) != POLYSEED_OK) { res_viol(r, "c01:create", "", "create failed"); continue; }
-        if (x & 1) polyseed_crypt(s, "pass\xC3\xA9");
-        uint8_t st[32]; polyseed_store(s, st); polyseed_free(s); r->calls += 4;
-        struct kase k; rseed_from_storage(st, &k.r); k.li = li; k.mask = 7; k.coin = (unsigned)(prng(&ps) & 2047);
+        if (polyseed_create(farg, &s) != POLYSEED_OK) { res_viol(r, "c01:create", "", "create failed"); continue; }
+        /* what the model says this seed is, from the inputs alone */
+        struct kase k; memset(&k.r, 0, sizeof k.r); memcpy(k.r.secret, E.tape[0], 19); k.r.secret[18] &= 0x3F; k.r.birthday = ref_birthday_index(E.clock[0]); k.r.features = f;
+        if (x & 1) { polyseed_crypt(s, "pass\xC3\xA9"); ref_crypt(&k.r, E.mask); }
+        uint8_t st[32], exp[32]; polyseed_store(s, st); polyseed_free(s); r->calls += 4; ref_storage(&k.r, exp);
+        if (memcmp(st, exp, 32)) { char rep[200], h[70]; hex(E.tape[0], 19, h); snprintf(rep, sizeof rep, "created %s %llu %u", h, (unsigned long long)E.clock[0], farg); res_viol(r, ORACLE == 1 ? "c01:created-seed" : "c03:created-seed", "", "seed made by create(%#x)%s with clock %llu does not serialise to the model seed (random bytes, month index, three feature bits)", farg, (x & 1) ? "+crypt" : "", (unsigned long long)E.clock[0]); continue; }
+        k.li = li; k.mask = 7; k.coin = (unsigned)(prng(&ps) & 2047);
         if (run_case(&k, r, 0) == 0 && r->nsample < 1) res_sample(r, "created%s seed lang=%s coin=%u", (x & 1) ? "+crypt" : "", RL[li].code, k.coin);
     }
 }
